@@ -45,7 +45,7 @@ pub const HUGE_CASE: u64 = u64::MAX - 20;
 fn huge_case(ctx: &Ctx, rep: &mut Reporter) {
     ctx.note_case(HUGE_CASE);
     let mut rng = Rng::new(ctx.case_seed(HUGE_CASE));
-    let n = 60_000 + rng.below(5_000);
+    let n = if ctx.variant == "debug" { 20_000 } else { 60_000 } + rng.below(5_000);
     let ast = pgvcore::ast::huge_group_ast(&mut rng, n);
     let text = ast.print_lf();
     let mut names = names_of(&ast);
@@ -75,7 +75,7 @@ fn huge_case(ctx: &Ctx, rep: &mut Reporter) {
 }
 
 pub fn run(ctx: &Ctx, rep: &mut Reporter) {
-    if !ctx.slow() && ctx.variant == "native" && ctx.shard < 4 && (ctx.only_case.is_none() || ctx.only_case == Some(HUGE_CASE)) {
+    if !ctx.slow() && (ctx.variant == "native" || ctx.variant == "debug") && ctx.shard < 4 && (ctx.only_case.is_none() || ctx.only_case == Some(HUGE_CASE)) {
         huge_case(ctx, rep);
     }
     for case_idx in ctx.case_range() {
